@@ -389,9 +389,11 @@ func (w *Reconciler) syncCreateTasks(
 ) (*execution.Job, []jobtasks.Task, error) {
 	now := ktime.Now().Time
 
-	// Cannot create any tasks.
+	// Cannot create any tasks. However, tasks that were created previously but
+	// could not be recorded in the status (e.g. the status update failed) still
+	// have to be adopted, otherwise they would never be killed or cleaned up.
 	if !canCreateTask(rj) {
-		return rj, tasks, nil
+		return w.syncAdoptTasks(rj, tasks)
 	}
 
 	// Compute task refs first to get true completion status.
@@ -443,6 +445,71 @@ func (w *Reconciler) syncCreateTasks(
 	}
 
 	return updatedRj, tasks, nil
+}
+
+// syncAdoptTasks adopts tasks that exist for the indexes that would have to be
+// created next, without creating any new task. Tasks are looked up from the
+// cache only: once a task that is not in the cache yet arrives there, the Job
+// will be synced again.
+func (w *Reconciler) syncAdoptTasks(
+	rj *execution.Job,
+	tasks []jobtasks.Task,
+) (*execution.Job, []jobtasks.Task, error) {
+	taskMgr, err := w.tasks.ForJob(rj)
+	if err != nil {
+		return rj, tasks, errors.Wrapf(err, "cannot get task manager")
+	}
+
+	indexes := parallel.GenerateIndexes(rj.Spec.Template.Parallelism)
+	indexRequests, err := parallel.ComputeMissingIndexesForCreation(rj, indexes)
+	if err != nil {
+		return rj, tasks, errors.Wrapf(err, "cannot compute missing indexes")
+	}
+
+	var adopted bool
+	for _, request := range indexRequests {
+		task, err := taskMgr.Lister().Index(jobtasks.TaskIndex{
+			Retry:    request.RetryIndex,
+			Parallel: request.ParallelIndex,
+		})
+		if err != nil {
+			continue
+		}
+		if !isControlledBy(task, rj) {
+			continue
+		}
+		tasks = append(tasks, task)
+		adopted = true
+		klog.InfoS("jobcontroller: adopted task",
+			"worker", w.Name(),
+			"namespace", rj.GetNamespace(),
+			"name", rj.GetName(),
+			"task", task.GetName(),
+		)
+	}
+	if !adopted {
+		return rj, tasks, nil
+	}
+
+	// Sync Job's status with the new list of tasks before moving on.
+	updatedRj, err := w.updateTaskRefStatus(rj, tasks)
+	if err != nil {
+		return rj, tasks, errors.Wrapf(err, "cannot update status")
+	}
+
+	return updatedRj, tasks, nil
+}
+
+// isControlledBy returns true if the task is controlled by the Job.
+func isControlledBy(task jobtasks.Task, rj *execution.Job) bool {
+	for _, ref := range task.GetOwnerReferences() {
+		if ref.Controller != nil && *ref.Controller {
+			if ref.Kind == execution.KindJob && rj.UID == ref.UID {
+				return true
+			}
+		}
+	}
+	return false
 }
 
 // syncCreateTask will perform the logic to create a new task for a given retry index.
@@ -547,13 +614,8 @@ func (w *Reconciler) getTaskForAdoption(rj *execution.Job, name string) (jobtask
 	}
 
 	// Check the task's controllerRef.
-	for _, ref := range task.GetOwnerReferences() {
-		if ref.Controller != nil && *ref.Controller {
-			// Check that the controller matches.
-			if ref.Kind == execution.KindJob && rj.UID == ref.UID {
-				return task, nil
-			}
-		}
+	if isControlledBy(task, rj) {
+		return task, nil
 	}
 
 	return nil, nil
